@@ -11,6 +11,7 @@ pub mod fmt;
 pub mod run;
 pub mod strict;
 pub mod ts;
+pub mod fdef;
 
 pub fn dispatch(case: &Value, dir: &Path) -> Value {
     match case.get("op").and_then(|x| x.as_str()) {
@@ -28,6 +29,8 @@ pub fn dispatch(case: &Value, dir: &Path) -> Value {
         Some("ts") => ts::op_ts(case, dir),
         Some("tsfmt") => ts::op_tsfmt(case, dir),
         Some("tzdata") => ts::op_tzdata(case, dir),
+        Some("fdef") => fdef::op_fdef(case, dir),
+        Some("b64") => fdef::op_b64(case),
         Some(op) => json!({"r": "BADCASE", "msg": format!("unknown op {op}")}),
         None => json!({"r": "BADCASE", "msg": "no op"}),
     }
